@@ -61,6 +61,18 @@ func TestC14(t *testing.T) {
 			}
 		}
 	}
+	// a working session stays working once more time than the start timeout (10 s here) has passed
+	for _, proto := range []string{"netrpc", "grpc"} {
+		for _, htls := range []string{"none", "static", "auto"} {
+			pc := PluginConf{CookieKey: cookieKey, CookieValue: cookieVal, Legacy: 1, LegacyProto: proto, GRPCServer: true, TLS: "none"}
+			if htls == "static" {
+				pc.TLS, pc.CertPEM, pc.KeyPEM = "provider", certPEM, keyPEM
+			}
+			add(Cell{Name: fmt.Sprintf("long-lived plugin{%s} host{tls=%s}: used again 12 s after connecting", proto, htls), Plugin: pc,
+				Host: HostConf{Allowed: []string{"netrpc", "grpc"}, TLS: htls, Launch: "cmd", Legacy: 1, CertPEM: certPEM, KeyPEM: keyPEM},
+				Ops:  []string{"new", "start", "client", "dispense", "set:5", "sleep:12000", "get", "ping", "callback", "dispense", "get", "kill"}}, exp{kind: "ok"})
+		}
+	}
 	// multiplexing requested from a plugin that does not advertise it
 	// (every shape a plugin that knows nothing about multiplexing may print: 5 fields as non-Go plugins do,
 	// an empty or absent certificate field, an explicit false; an unparsable flag is a different error)
